@@ -173,6 +173,8 @@ def gen_cases(ctx: Ctx) -> List[Dict[str, Any]]:
 def run(ctx: Ctx):
     gen.regenerate(ctx, ["Cadence"])
     leanproj.check_theorems(ctx, MODULE, THEOREMS)
+    from .registry import THEOREMS_C10B
+    leanproj.check_theorems(ctx, "PyseqmVerif.Properties.C10b", THEOREMS_C10B)
     cases = gen_cases(ctx)
     results = mdh.pmap(probe_and_obs, cases, timeout=1500)
     drv = leanproj.Driver()
